@@ -1,7 +1,7 @@
 (** C19 — property theorems.  This file contains nothing but statements closed by [exact]. *)
 From Coq Require Import ZArith QArith.
-From Coq Require Import Qminmax.
-From KV Require Import Base.IEEE Base.Outcome Base.Num C19.Model C19.ProofsTime C19.ProofsEasing C19.ProofsGuards.
+From Coq Require Import Qminmax List.
+From KV Require Import Base.IEEE Base.Outcome Base.Num C19.Model C19.ProofsTime C19.ProofsEasing C19.ProofsGuards C19.ModelHandle C19.ProofsHandle.
 Local Open Scope Q_scope.
 
 (** Adding a non-negative amount: the fraction stays in [0,1), ticks + fraction grows by
@@ -90,3 +90,29 @@ Theorem mapping_zero_width_refuted :
   forall powf : f64 -> f64 -> f64,
     (bits_of_f64 (map_value powf zero_width (b64 0x4000000000000000)) < 0)%Z.
 Proof. exact mapping_zero_width_refuted_l. Qed.
+
+(** The clock times a [ClockHandle] hands out (the pair the audio thread publishes after any number of
+    chunks, each advancing the timer by a non-negative amount) are well-formed clock times: ticks >= 0
+    and the fraction in [0, 1). *)
+Theorem handle_time_well_formed :
+  forall (c : ctime Q) (incs : list Q),
+    wf c -> Forall (fun i => 0 <= i) incs -> wf (handle_time c incs).
+Proof. exact handle_time_wf. Qed.
+
+(** ... their ticks + fraction is exactly the time that has passed (no u64 saturation), so successive
+    reports are ordered like the audio that has been rendered ... *)
+Theorem handle_time_exact :
+  forall (c : ctime Q) (incs : list Q),
+    wf c -> Forall (fun i => 0 <= i) incs -> value c + Qsum incs < inject_Z (2 ^ 64) ->
+    value (handle_time c incs) == value c + Qsum incs.
+Proof. exact handle_time_value. Qed.
+
+(** ... and a reported time is strictly before the start of the next tick, as ticks + fraction and under
+    [PartialOrd], which agree. *)
+Theorem handle_time_before_next_tick :
+  forall (c : ctime Q) (incs : list Q),
+    wf c -> Forall (fun i => 0 <= i) incs ->
+    let h := handle_time c incs in
+    value h < value (next_tick h) /\ ct_cmp h (next_tick h) = Some Lt /\
+    ct_cmp h (next_tick h) = Some (value h ?= value (next_tick h)).
+Proof. exact handle_time_before_next_tick_l. Qed.
